@@ -210,6 +210,13 @@ def check_request(rec: hw.CallRec, cap, own_transport, V):
     got_t = can.get("timeout") or {}
     if t is not None and set(got_t.values()) != {t}:
         V("request-kwargs", "%s: timeout kwarg %r arrived as %r" % (tag, t, got_t))
+    want_cookie = rec.spec["kw"].get("cookies")
+    got_cookie = hdr.get("cookie")
+    if want_cookie:
+        if got_cookie != ["; ".join("%s=%s" % kv for kv in want_cookie.items())]:
+            V("request-kwargs", "%s: cookies kwarg %r arrived as Cookie %r" % (tag, want_cookie, got_cookie))
+    elif got_cookie:
+        V("request-foreign-cookie", "%s: the request carries Cookie %r although this call passed no cookies" % (tag, got_cookie))
     if "extensions" in rec.spec["kw"] and cap.extensions.get("sim") != "ext":
         V("request-kwargs", "%s: extensions kwarg not passed through" % tag)
     # body
